@@ -22,6 +22,8 @@ uncached, after perturbing the global generator) agree, no exception.
 import json
 import os
 import random
+import shutil
+import tempfile
 
 from . import common
 
@@ -82,6 +84,7 @@ ASSUMPTIONS = [
 F_PAD = "C16-grid-pad-overrequest"
 F_CONST = "C16-grid-constant-axis"
 F_U32 = "C16-request-uint32"
+F_INT = "C16-grid-integer-wrap"
 
 HEADER = ("From Coq Require Import ZArith List.\nImport ListNotations.\n"
           "From Verif Require Import Model.C16.\n")
@@ -253,11 +256,11 @@ def flat_mask(keep):
     return bits
 
 
-def flat_result(asd, bsd, keep):
+def flat_result(asd, bsd, keep, e=3):
     import numpy as np
     keep = np.asarray(keep)
     return ([0, int(keep.sum())] + flat_mask(keep)
-            + flat_vals(asd) + flat_vals(bsd))
+            + flat_vals(asd, e) + flat_vals(bsd, e))
 
 
 ERR = {"ValueError": 1, "IndexError": 2, "OverflowError": 5}
@@ -288,8 +291,9 @@ def render(kind, lists, params, rows):
 # --------------------------------------------------------------------------
 # generators
 # --------------------------------------------------------------------------
-SHAPES = ["uniform", "clustered", "constant", "dupes", "ramp", "outlier",
-          "uniform", "clustered"]
+SHAPES = ["uniform", "clustered", "dupes", "ramp", "outlier", "uniform",
+          "clustered", "uniform", "clustered", "dupes", "ramp", "outlier",
+          "uniform", "clustered", "dupes", "ramp", "constant"]
 SPECIALS = ["none", "none", "few", "few", "many", "all", "edges", "one"]
 
 
@@ -363,8 +367,33 @@ def avoid_rounding(vals, valid):
         p += 1
 
 
+def wrap_int(w, x):
+    return (x + 2 ** (w - 1)) % 2 ** w - 2 ** (w - 1)
+
+
+def avoid_rounding_int(vals, w):
+    """integer typed array: neither the range nor the wrapped range may be
+    divisible by 13 or 23 (see avoid_rounding)"""
+    import numpy as np
+    if len(vals) < 2:
+        return
+    hi = 2 ** (w - 1) - 1
+    for _ in range(60):
+        p = int(vals.max() - vals.min())
+        q = wrap_int(w, p)
+        if p == 0 or not (p % 13 == 0 or p % 23 == 0 or
+                          (q != 0 and (q % 13 == 0 or q % 23 == 0))):
+            return
+        j = int(np.argmax(vals))
+        if vals[j] < hi:
+            vals[j] += 1
+        else:
+            vals[int(np.argmin(vals))] += 1
+
+
 def arrays_from_recipe(rc):
-    """-> (a_vals, a_tags, b_vals, b_tags) int64 arrays (units of 1/8)"""
+    """-> (a_vals, a_tags, b_vals, b_tags) int64 arrays (units of 1/8; whole
+    numbers for rc["idt"] = width of a signed integer dtype)"""
     import numpy as np
     rs = np.random.RandomState(rc["seed"])
     n = rc["n"]
@@ -372,6 +401,20 @@ def arrays_from_recipe(rc):
     bv = axis_values(rs, n, rc["sb"])
     at = inject(rs, n, rc["ia"])
     bt = inject(rs, n, rc["ib"])
+    w = rc.get("idt", 0)
+    if w:
+        lo, hi = -2 ** (w - 1), 2 ** (w - 1) - 1
+        at[:] = 0
+        bt[:] = 0
+        if w == 8:
+            av, bv = av // 8, bv // 8
+        if rc.get("wide") and n:        # spans most of the dtype: wraps
+            av = rs.randint(lo, hi + 1, size=n).astype(np.int64)
+        av = np.clip(av, lo, hi)
+        bv = np.clip(bv, lo, hi)
+        avoid_rounding_int(av, w)
+        avoid_rounding_int(bv, w)
+        return av, at, bv, bt
     valid = (at == 0) & (bt == 0)
     avoid_rounding(av, valid)
     avoid_rounding(bv, valid)
@@ -389,13 +432,22 @@ def to_float(vals, tags):
     return arr
 
 
+def case_width(case):
+    """width of the signed integer dtype of an array case (0: float64)"""
+    return int(case.get("idt") or case.get("recipe", {}).get("idt", 0))
+
+
 def case_arrays(case):
     """float arrays a, b (b is None for rand cases) and their pair encodings"""
     import numpy as np
+    w = case_width(case)
     if "recipe" in case:
         av, at, bv, bt = arrays_from_recipe(case["recipe"])
-        a = to_float(av, at)
-        b = to_float(bv, bt)
+        if w:
+            a, b = av.astype("int%d" % w), bv.astype("int%d" % w)
+        else:
+            a = to_float(av, at)
+            b = to_float(bv, bt)
         pa = list(zip(at.tolist(), av.tolist()))
         pb = list(zip(bt.tolist(), bv.tolist()))
     elif "af" in case:          # plain floats (oracle only, no model run)
@@ -405,24 +457,28 @@ def case_arrays(case):
     else:
         pa = [tuple(p) for p in case["a"]]
         pb = [tuple(p) for p in case.get("b", case["a"])]
-        a = pairs_to_array(pa)
-        b = pairs_to_array(pb)
+        if w:       # whole numbers stored in a signed integer array
+            a = np.array([k for _, k in pa], dtype="int%d" % w)
+            b = np.array([k for _, k in pb], dtype="int%d" % w)
+        else:
+            a = pairs_to_array(pa)
+            b = pairs_to_array(pb)
     return a, b, pa, pb
 
 
 def pick_samples(rng, n, ngood):
     # U32 is defined below (module level)
     c = rng.random()
-    cands = [0, 1, 2, ngood - 1, ngood, ngood + 1, n - 1, n, n + 1,
-             n + rng.randint(2, 9), 2 * n + 3, max(1, ngood // 2),
-             max(1, ngood // 10)]
+    cands = [0, 1, 2, ngood - 1, ngood, ngood + 1, n - 1, n, n, n + 1,
+             max(1, ngood // 2), max(1, ngood // 3), max(1, ngood // 10),
+             rng.choice([n + rng.randint(2, 9), 2 * n + 3, n - 2])]
     if c < 0.55:
         s = rng.choice(cands)
     elif c < 0.8:
         s = rng.randint(1, max(1, ngood))
     else:
         s = rng.randint(1, max(1, n))
-    if rng.random() < 0.04:
+    if rng.random() < 0.025:
         s = rng.choice([U32 - 1, U32, U32 + 3, U32 + n, 10 ** 12])
     return max(0, int(s))
 
@@ -449,8 +505,12 @@ def gen_recipe(rng, thorough):
     sb = rng.choice(SHAPES)
     ia = rng.choice(SPECIALS)
     ib = rng.choice(SPECIALS) if rng.random() < 0.5 else "none"
-    return dict(seed=rng.randint(0, 2 ** 31 - 1), n=n, sa=sa, sb=sb, ia=ia,
-                ib=ib)
+    rc = dict(seed=rng.randint(0, 2 ** 31 - 1), n=n, sa=sa, sb=sb, ia=ia,
+              ib=ib)
+    if rng.random() < 0.08:
+        rc["idt"] = rng.choice([8, 16, 16])
+        rc["wide"] = int(rng.random() < 0.5)
+    return rc
 
 
 def gen_array_case(rng, thorough, kind):
@@ -458,6 +518,7 @@ def gen_array_case(rng, thorough, kind):
     rc = gen_recipe(rng, thorough)
     if kind == "rand":
         rc["ib"] = "none"
+        rc.pop("idt", None)
     av, at, bv, bt = arrays_from_recipe(rc)
     if kind == "rand":
         ngood = int((at == 0).sum())
@@ -470,17 +531,22 @@ def gen_array_case(rng, thorough, kind):
 DS_FEATS = ["area_um", "deform", "bright_avg"]
 
 
-def gen_ds_case(rng, thorough):
+def gen_ds_case(rng, thorough, n=None):
     import numpy as np
-    n = gen_size(rng, thorough, big_ok=False)
-    if n > 150:
-        n = n // 4
+    if n is None:
+        n = gen_size(rng, thorough, big_ok=False)
+        if n > 150:
+            n = n // 4
     seed = rng.randint(0, 2 ** 31 - 1)
     feats = {}
     for f in DS_FEATS:
-        feats[f] = dict(dtype=rng.choice(["f8", "f8", "f8", "f4", "u1", "i2"]),
+        feats[f] = dict(dtype=rng.choice(["f8", "f8", "f8", "f4", "u1", "i2",
+                                          "i1"]),
+                        wide=int(rng.random() < 0.6),
                         shape=rng.choice(["uniform", "clustered", "dupes",
-                                          "ramp", "uniform", "constant"]
+                                          "ramp", "uniform", "clustered",
+                                          "dupes", "ramp", "uniform",
+                                          "clustered", "dupes", "constant"]
                                          if f != "area_um" else
                                          ["uniform", "clustered", "ramp",
                                           "dupes"]),
@@ -539,6 +605,8 @@ def gen_ds_case(rng, thorough):
                         rng.randint(1, max(1, cnt)),
                         rng.choice([U32 - 1, U32, U32 + 3, 10 ** 12])])
     limit = max(0, int(limit))
+    if rng.random() < 0.05:
+        limit = -rng.randint(1, 5)          # "no limit"
     cnt2 = min(limit, cnt) if (limit > 0 and enable) else cnt
     def spell(name):
         c = rng.random()
@@ -572,6 +640,8 @@ def gen_ds_case(rng, thorough):
             lim = max(0, int(rng.choice(
                 [0, 1, cnt // 2, cnt, cnt + 1, U32, 10 ** 12,
                  rng.randint(1, max(1, cnt))])))
+            if rng.random() < 0.08:
+                lim = -rng.randint(1, 3)
         step = dict(limit=lim)
         prev = lim
         if n and rng.random() < 0.7:
@@ -588,11 +658,16 @@ def gen_ds_case(rng, thorough):
         history.append(step)
     case.update(box=box, manual=manual, poly=poly, limit=limit, enable=enable,
                 rie=rie, requests=reqs, child=int(rng.random() < 0.3),
-                history=history)
+                history=history,
+                backend="hdf5" if n and rng.random() < 0.15 else "dict",
+                circ=int(feats["deform"]["dtype"] == "f8"
+                         and rng.random() < 0.25))
     return case
 
 
-NP_DTYPES = {"f8": "float64", "f4": "float32", "u1": "uint8", "i2": "int16"}
+NP_DTYPES = {"f8": "float64", "f4": "float32", "u1": "uint8", "i2": "int16",
+             "i1": "int8"}
+INT_RANGE = {"u1": (0, 255), "i1": (-128, 127), "i2": (-32768, 32767)}
 
 
 def ds_arrays(case):
@@ -613,11 +688,20 @@ def ds_arrays(case):
         if spec["positive"] or dt == "u1":
             v = np.abs(v) + (1 if spec["positive"] else 0)
         t = inject(rs, n, spec["special"])
-        if dt in ("u1", "i2"):
-            # integer typed feature: whole numbers, no nan/inf
-            v = v % 200 - (0 if spec["positive"] or dt == "u1" else 60)
+        if dt in INT_RANGE:
+            # integer typed feature: whole numbers, no nan/inf; "wide": the
+            # values span the whole dtype (differences overflow it)
+            lo, hi = INT_RANGE[dt]
             t[:] = 0
-            avoid_rounding(v, t == 0)
+            if spec["shape"] == "constant" or n < 2:
+                v = np.full(n, int(rs.randint(lo, hi + 1)), dtype=np.int64)
+            elif spec.get("wide", 0):
+                v = rs.randint(lo, hi + 1, size=n).astype(np.int64)
+                i, j = rs.choice(n, size=2, replace=False)
+                v[i], v[j] = lo, hi         # range 255 / 65535: no rounding
+            else:
+                v = v % 100 + (1 if spec["positive"] or dt == "u1" else -40)
+                avoid_rounding(v, t == 0)
             out[f] = v.astype(np.float64)
             continue
         avoid_rounding(v, t == 0)
@@ -679,7 +763,63 @@ def classify_grid(exc, a, b, samples, ri):
     if isinstance(exc, IndexError) and 0 < samples < ngood and \
             constant_axis(a, b):
         return F_CONST
+    if isinstance(exc, IndexError) and 0 < samples < ngood and \
+            integer_wrap(a, b):
+        return F_INT
     return None
+
+
+def integer_wrap(a, b):
+    """a signed integer array whose range does not fit its dtype: norm()
+    wraps (array level only)"""
+    import numpy as np
+    for v in (a, b):
+        if v.dtype.kind == "i" and len(v) and \
+                int(v.max()) - int(v.min()) > np.iinfo(v.dtype).max:
+            return True
+    return False
+
+
+def valid_first(keep, good, request):
+    """clause of the theorems that does not depend on which events are drawn:
+    the number of valid events returned is min(request, valid) -> message"""
+    import numpy as np
+    ngood = int(np.asarray(good).sum())
+    want = ngood if request == 0 else min(request, ngood)
+    got = int((np.asarray(keep) & np.asarray(good)).sum())
+    if got != want:
+        return "%d valid events returned, min(request %d, valid %d) = %d " \
+               "expected (invalid events only fill up)" % (got, request, ngood,
+                                                           want)
+    return None
+
+
+def grid_branches(a, b, samples, ri):
+    """which steps of downsample_grid an input exercises (for the evidence)"""
+    import numpy as np
+    tags = []
+    good = np.isfinite(a) & np.isfinite(b)
+    ngood, n = int(good.sum()), len(a)
+    kept = ngood
+    if 0 < samples < ngood and samples < 2 ** 32:
+        cells = []
+        for v in (a, b):
+            v = np.asarray(v[good], dtype=np.float64)
+            p = v.max() - v.min()
+            if p == 0 or not np.isfinite(p):
+                return ["branch:constant-axis"]
+            cells.append(np.floor((v - v.min()) / p * 299).astype(np.int64))
+        ncell = len(set(zip(cells[0].tolist(), cells[1].tolist())))
+        tags.append("branch:grid-remove" if ncell > samples else
+                    "branch:grid-add" if ncell < samples else
+                    "branch:grid-exact")
+        kept = samples
+    else:
+        tags.append("branch:no-grid")
+    if not ri and samples < 2 ** 32 and \
+            0 < (samples or n) - kept <= n - ngood:
+        tags.append("branch:pad")
+    return tags
 
 
 def oracle_selection(vals, ret, keep, request, eligible_mask, ri, what):
@@ -718,6 +858,15 @@ def exec_array_case(case, rng):
     np_scalar = bool(case.get("np"))        # request passed as np.int64
     req = np.int64(samples) if np_scalar else samples
     grid = case["kind"] == "grid"
+    w = case_width(case)
+    e = 0 if w else 3
+    tags = grid_branches(a, b, samples, ri) if grid else []
+    if w:
+        tags.append("dtype:int%d%s" % (w, "-wrapping" if integer_wrap(a, b)
+                                       else ""))
+    if np_scalar:
+        tags.append("request:np.int64")
+    k2a, k2b = rng.randint(-3, 6), rng.randint(-3, 6)
     flats = {}
     fails = []
     problems = []
@@ -758,6 +907,10 @@ def exec_array_case(case, rng):
             r4 = fn(remove_invalid=ri)
             r5 = fn(ret_idx=True) if not ri else r1
             r6 = call(f, *((a, b, req, ri, True) if grid else (a, req, ri, True)))
+            # the same values in other units (powers of two are exact)
+            r7 = fn(a=a * 2.0 ** k2a, b=b * 2.0 ** k2b, remove_invalid=ri,
+                    ret_idx=True) if grid and not w \
+                and not case.get("oracle_only") else None
         t, pr = table_from_calls(rec.calls)
         rows.update(t)
         problems += ["%s: %s" % (name, p) for p in pr]
@@ -775,6 +928,13 @@ def exec_array_case(case, rng):
         if not same(r1, r5) or not same(r1, r6):
             fails.append(("%s: default remove_invalid / positional call "
                           "differs from the keyword call" % what, None))
+        if r7 is not None and not (
+                type(r7) is type(r1) if isinstance(r1, Exception) else
+                not isinstance(r7, Exception) and
+                np.array_equal(r7[2], r1[2])):
+            problems.append("%s: a * 2**%d, b * 2**%d selects other events "
+                            "(C16_selection_depends_on_values_only)" % (
+                                what, k2a, k2b))
         if isinstance(r1, Exception):
             flats[name] = flat_error(r1)
             if isinstance(r1, OverflowError) and samples >= U32:
@@ -792,7 +952,14 @@ def exec_array_case(case, rng):
             asd, bsd, keep = r1
             good = np.isfinite(a) & np.isfinite(b)
             vals, rets = [a, b], [asd, bsd]
-            flats[name] = flat_result(asd, bsd, keep)
+            flats[name] = flat_result(asd, bsd, keep, e)
+            if samples < U32 and oracle_selection(
+                    vals, rets, keep, samples,
+                    good if ri else np.ones(len(a), dtype=bool), ri,
+                    what) is None:
+                vf = valid_first(keep, good, samples)
+                if vf:
+                    problems.append("%s: %s" % (what, vf))
             if int(good.sum()) != len(a):
                 nontrivial = True
         else:
@@ -810,14 +977,14 @@ def exec_array_case(case, rng):
             fails.append((msg, fid))
     if case.get("oracle_only"):
         return dict(checks=[], fails=fails, nontrivial=nontrivial,
-                    problems=problems)
-    params = [samples, int(ri), int(np_scalar)]
+                    problems=problems, tags=tags)
+    params = [samples, int(ri), int(np_scalar), w]
     if grid:
         rendered = render(0, [r_pairs(pa), r_pairs(pb)], params, rows)
     else:
         rendered = render(1, [r_pairs(pa)], params, rows)
     return dict(checks=[(rendered, flats)], fails=fails, nontrivial=nontrivial,
-                problems=problems)
+                problems=problems, tags=tags)
 
 
 # --------------------------------------------------------------------------
@@ -904,6 +1071,10 @@ def do_requests(ds, data, fall, requests, name, rng, obs, fails, problems):
         msg = oracle_selection([xf, yf], [xr, yr], mask, req, elig, True, what)
         if msg:
             fails.append((msg, None))
+        elif req < U32 or True:
+            vf = valid_first(mask, fall & good, req)
+            if vf:
+                problems.append("%s: %s" % (what, vf))
         obs.append(("scatter", flat_result(xr, yr, mask), extra))
 
 
@@ -943,6 +1114,74 @@ def observe_filter(ds, case, limit, name, rng, obs, fails):
     return fall
 
 
+def make_dataset(case, typed, tmpdirs):
+    """in-memory (RTDC_Dict) or file-backed (RTDC_HDF5) dataset; with
+    case["circ"] the file/dict holds circ = 1 - deform and deform is the
+    ancillary feature computed from it"""
+    import dclab
+    from . import gen
+    feats = {k: v.copy() for k, v in typed.items()}
+    if case.get("circ"):
+        feats["circ"] = 1 - feats.pop("deform")
+    if case.get("backend") == "hdf5" and case["n"]:
+        d = tempfile.mkdtemp(prefix="verif-C16-ds-",
+                             dir=os.environ.get("VERIF_SCRATCH", "/var/tmp"))
+        tmpdirs.append(d)
+        path = os.path.join(d, "ds.rtdc")
+        with dclab.RTDCWriter(path, mode="reset") as hw:
+            hw.store_metadata(gen.base_meta())
+            for k, v in feats.items():
+                hw.store_feature(k, v)
+        return dclab.new_dataset(path)
+    return dclab.new_dataset(feats)
+
+
+def ds_tags(case):
+    tags = ["ds:backend-" + case.get("backend", "dict")]
+    n = case["n"]
+    tags.append("ds:n=0" if n == 0 else "ds:n<=20" if n <= 20 else
+                "ds:n<=400" if n <= 400 else "ds:n>400")
+    for f, spec in case["feats"].items():
+        dt = spec.get("dtype", "f8")
+        tags.append("ds:dtype-" + dt + ("-wide" if dt in INT_RANGE
+                                        and spec.get("wide") else ""))
+    if case.get("circ"):
+        tags.append("ds:deform-ancillary")
+    if case.get("child"):
+        tags.append("ds:child")
+    if case["limit"] < 0:
+        tags.append("ds:limit-negative")
+    elif case["limit"] >= U32:
+        tags.append("ds:limit>=2**32")
+    elif case["limit"] > 0:
+        tags.append("ds:limit>0")
+    for k in ("box", "manual", "poly"):
+        if case.get(k):
+            tags.append("ds:filter-" + k)
+    if case.get("rie"):
+        tags.append("ds:filter-invalid")
+    reqs = list(case["requests"]) + [st["request"]
+                                     for st in case.get("history", [])]
+    for st in case.get("history", []):
+        tags.append("ds:history-step")
+        if st["limit"] < 0:
+            tags.append("ds:limit-negative")
+    for rq in reqs:
+        tags.append("ds:request")
+        if rq["xscale"] == "log" or rq["yscale"] == "log":
+            tags.append("ds:request-log")
+        if rq["xax"].lower() == rq["yax"].lower():
+            tags.append("ds:request-xax==yax")
+        if rq["xax"] != rq["xax"].lower() or rq["yax"] != rq["yax"].lower():
+            tags.append("ds:request-spelling")
+        if rq.get("np"):
+            tags.append("ds:request-np.int64")
+        if rq["downsample"] >= U32:
+            tags.append("ds:request>=2**32")
+        tags.append("ds:request-remove_invalid=%d" % rq["ri"])
+    return tags
+
+
 def exec_ds_case(case, rng):
     import numpy as np
     import dclab
@@ -955,11 +1194,13 @@ def exec_ds_case(case, rng):
     rows = {}
     nontrivial = False
     per_mod = {}
+    tmpdirs = []
+    tags = ds_tags(case)
     for name, mod in mods.items():
         obs = []
         with patched_downsampling(mod):
             dclab.PolygonFilter.clear_all_filters()
-            ds = dclab.new_dataset({k: v.copy() for k, v in typed.items()})
+            ds = make_dataset(case, typed, tmpdirs)
             cfg = ds.config["filtering"]
             for f, (lo, hi) in case["box"].items():
                 cfg[f + " min"] = lo / 8.0
@@ -1049,8 +1290,10 @@ def exec_ds_case(case, rng):
                     r_bools(fall_used)],
                 [rq["downsample"], rq["ri"], int(xlog), int(ylog)], rows)
         checks.append((rendered, flats))
+    for d in tmpdirs:
+        shutil.rmtree(d, ignore_errors=True)
     return dict(checks=checks, fails=fails, nontrivial=nontrivial,
-                problems=problems)
+                problems=problems, tags=tags)
 
 
 DTYPE_NOTES = []
@@ -1143,8 +1386,10 @@ def gen_cases(rng, thorough, ngrid, nrand, nds):
         for n in (20000, 50000, 100000):
             cases.append(big_case(rng, n))
         cases.append(big_case(rng, 100000, "rand"))
+        cases.append(gen_ds_case(rng, True, n=20000))
     else:
         cases.append(big_case(rng, 4000))
+        cases.append(gen_ds_case(rng, False, n=2500))
     return cases
 
 
@@ -1223,6 +1468,8 @@ def run(run):
             s = c["samples"]
             run.count("request:" + ("0" if s == 0 else ">N" if s > n_ else
                                     "=N" if s == n_ else "<N"))
+        for tg in res.get("tags", []):
+            run.count(tg)
         for desc, fid in res["fails"]:
             run.count("error:" + (fid or "other"))
             run.oracle_failure(c, desc, fid)
@@ -1265,7 +1512,8 @@ def explicit(case):
         return case
     a, b, pa, pb = case_arrays(case)
     c = dict(kind=case["kind"], samples=case["samples"], ri=case["ri"],
-             np=case.get("np", 0), a=[list(p) for p in pa])
+             np=case.get("np", 0), idt=case_width(case),
+             a=[list(p) for p in pa])
     if case["kind"] == "grid":
         c["b"] = [list(p) for p in pb]
     return c
